@@ -201,7 +201,7 @@ fn check_raw16(ctx: &Ctx, base: &vcp::Message, raw: u16, st: &mut Stats) {
     chk!("ebc_angle_degrees", c.ebc_angle_degrees(), ang);
     c.azimuth_rate = raw;
     chk!("azimuth_rate_degrees_per_second", c.azimuth_rate_degrees_per_second(), rate);
-    #[cfg(feature = "full")]
+    #[cfg(feature = "f-uomdec")]
     {
         use uom::si::angle::degree;
         use uom::si::angular_velocity::degree_per_second;
@@ -302,7 +302,7 @@ fn check_raw8(ctx: &Ctx, base: &vcp::Message, raw: u8, st: &mut Stats) {
         _ => None,
     };
     chk!("hdr.doppler_velocity_resolution_mps", h.doppler_velocity_resolution_meters_per_second(), exp);
-    #[cfg(feature = "full")]
+    #[cfg(feature = "f-uomdec")]
     {
         use uom::si::velocity::meter_per_second;
         chk!("hdr.doppler_velocity_resolution_uom", h.doppler_velocity_resolution().map(|v| v.get::<meter_per_second>()), exp);
